@@ -124,6 +124,12 @@ def gen_cases(ctx, count):
             cases.append({"space": space, "kind": kind, "n": n, "ns": ns, "state": state, "cls": cls, "mode": m, "option": o,
                           "seed": seed, "policy": "on_t_sample", "twice": False,
                           "units": {"time": rng.choice(["s", "ms", "min"]), "quantity": rng.choice(["nmol", "fmol", "mol"])}})
+        if rng.random() < 0.35:
+            # a refused assignment of an unknown mode, then the script is run: it must behave with the mode it had before
+            m, o = rng.choice([(mm, oo) for mm in MODES for oo in OPTIONS])
+            cases.append({"space": space, "kind": kind, "n": n, "ns": ns, "state": state, "cls": cls, "mode": m, "option": o,
+                          "seed": seed, "policy": "on_t_sample", "twice": False,
+                          "refused": rng.choice(["floor", "floor", "Floor", "round ", "", "poisson"])})
         if rng.random() < 0.3:
             # the script's own default (keyword omitted): must behave like "auto"
             cases.append({"space": space, "kind": kind, "n": n, "ns": ns, "state": state, "cls": cls, "mode": None,
@@ -234,6 +240,15 @@ def child_case(case, lib):
             script = via_route(rep)      # a second, independent delivery of the same script and seed
             if case.get("route") and rep == 1:
                 out["loaded_seeds"].append(int(script.rng_seed))
+        if case.get("refused") is not None:
+            # an assignment the setter must refuse; the script is used afterwards and must be as it was before
+            before_mode = script.init_state_processing
+            try:
+                script.init_state_processing = case["refused"]
+                out["refusal"] = "accepted"
+            except (ValueError, TypeError):
+                out["refusal"] = "raised"
+            out["mode_after_refusal"] = [before_mode, script.init_state_processing]
         eng = LibRDEngine(lib, option=case["option"], requires_molecules=(case["option"] != "euler"))
         common.draws_clear(lib)
         if case.get("route") == "simulate" and rep < 2:
@@ -295,6 +310,13 @@ def oracle(case, res):
         return [("mode-rejected:%s" % mode, "documented mode %r raised %s" % (mode, res["raised"]))], False
     if mode is None:
         mode = "auto"
+    if case.get("refused") is not None:
+        if res.get("refusal") != "raised":
+            fails.append(("bad-mode-accepted", "assigning init_state_processing=%r to a script was accepted" % case["refused"]))
+        ma = res.get("mode_after_refusal")
+        if ma and ma[0] != ma[1]:
+            fails.append(("refused-mode-stored", "after the refused assignment of %r the script's init_state_processing reads %r (was %r)"
+                          % (case["refused"], ma[1], ma[0])))
     if res.get("hang"):
         return [("hang:%s" % effective_mode(mode, case["option"]),
                  "initial-state processing did not terminate within %ss" % res.get("timeout_s"))], False
@@ -469,7 +491,9 @@ def run(ctx):
                 ctx.count("correction_loop_cases")
                 ctx.count("correction_loop_uniforms", sum(1 for d in res["draws"] if d[0] == "unif"))
             fails, amb = oracle(case, res)
-            small = {k2: case[k2] for k2 in ("space", "kind", "n", "ns", "state", "mode", "option", "seed", "policy", "twice", "units", "chem", "seed_type", "route") if k2 in case}
+            small = {k2: case[k2] for k2 in ("space", "kind", "n", "ns", "state", "mode", "option", "seed", "policy", "twice", "units", "chem", "seed_type", "route", "refused") if k2 in case}
+            if case.get("refused") is not None:
+                ctx.count("refused_assignment_then_run")
             if case.get("route"):
                 ctx.count("seed_route_" + case["route"])
             if case.get("units"):
